@@ -294,6 +294,11 @@ pub fn phase(args: &Args, master: &Path) -> Report {
     );
     r.bound("cases", n);
     r.bound("max_size", *sizes(args.thorough).last().unwrap());
+    // fourth part: reads when st_size lies
+    let r4 = crate::readsrc::run_all(args, master);
+    r.merge(r4);
+    r.rule.push_str(" ");
+    r.rule.push_str(&crate::readsrc::rule());
     // third part: copy from special sources / across mounts
     let r3 = crate::copysrc::run_all(args, master);
     r.merge(r3);
